@@ -1,6 +1,8 @@
 mod common;
 mod cursor;
 mod store;
+mod shimmark;
+mod mani_run;
 mod setsum_replay;
 
 fn main() {
@@ -11,6 +13,9 @@ fn main() {
     match args[1].as_str() {
         "cursor-replay" => cursor::main(&args[2..]),
         "store-run" => store::main(&args[2..]),
+        "mani-run" => mani_run::run(&args[2..]),
+        "mani-recover" => mani_run::recover(&args[2..]),
+        "mani-cuts" => mani_run::cuts(&args[2..]),
         "setsum-replay" => setsum_replay::main(&args[2..]),
         x => common::tool_error(&format!("unknown subcommand {x}")),
     }
